@@ -24,6 +24,11 @@ CHECKS = {
     note="Not proved: that the series/recurrence/asymptotic form ARE e^{-z} i_l(z) and the derivative bound in the budget (Mathlib has no Bessel functions); rounding. Trusted: Lean kernel, translate/constants.py, harness/corr_bessel.cpp, oracle/bessel.py (mpmath), the platform libm's exp being the same in both drivers.",
     technique="Lean 4 structural theorems + bitwise model/implementation correspondence at Float + mpmath oracle",
     design="3/C14"),
+ "C15": dict(
+    text="PARTIAL. Lean theorems (Props/C15.lean) for every grid size: the trigonometric recurrence yields sin/cos of the equally spaced angles and mirrored nodes are consistent (so the grid is the Perez-Jorda rule); sumTerms visits, at each level of the one-point scheme, exactly the odd multiples of the stride - the new nodes of the doubled rule - and the levels plus the midpoint use every node once; the two-point scheme visits the multiples = +-1 mod 6; all indices are in range; the linear window map is the change of variables it claims and the half-line map has the derivative put on the weights. The Lean model run at Float agrees BIT FOR BIT with the real GCQuadrature (abscissae, weights, both transforms, value and convergence flag, every admissible grid size, both schemes, sub-ranges). Whether 'converged' implies the stated accuracy is checked on the implementation against mpmath, not proved; the one way it fails on the unchanged tree is a recorded finding (premature-acceptance) recognised by a trace predicate with counterfactual.",
+    note="Not proved: Perez-Jorda's acceptance heuristic implies the error bound. Tolerance used: sqrt(tol|I|)+1e-12 as stated plus 1e-13|I| for unavoidable rounding of the node sum. Grid sizes below 7 are not generated (maxN=1 makes integrate read an unset local; the library never asks for it). Trusted: Lean kernel, harness/corr_quad.cpp, mpmath.",
+    technique="Lean 4 structural theorems + bitwise model/implementation correspondence at Float + mpmath oracle with known-finding trace predicate",
+    design="3/C15"),
  "C16": dict(
     text="Kernel-checked (decide +kernel, no axioms) over the WHOLE shipped table - 6 sets, 121 element definitions, 2144 primitives, exact decimals: every XML file is exactly the MOLPRO-convention reading of its raw source (elements, ncore, maxl, per shell lval/nexp, per primitive n/x/c; local part first at l=maxl; spin-orbit blocks dropped) and is well formed for the build. The data, the pow_n functions and the constants are regenerated from /repo on every run. Every shipped element is loaded by the real addECP_from_file and compared with the Lean loader/evaluator model (fields exact, evaluator 1e-13 at 10 radii per l) and, independently, with a Python oracle built straight from the raw files.",
     note="Trusted: Lean kernel; translate/ecpdata.py (own MOLPRO tokenizer, xml.etree), powfns.py, constants.py; harness/corr_ecp.cpp; pugixml/stod deliver the attribute values correctly rounded; std::sort modelled as any l-ordered permutation.",
